@@ -164,14 +164,18 @@ func (p *MemTablePool) GetNextSequenceNumber() uint64 {
 	return p.active.GetNextSequenceNumber()
 }
 
-// GetMemTables returns all MemTables (active and immutable)
+// GetMemTables returns all MemTables (active and immutable), newest first:
+// the active table, then the immutable tables from the most recently switched
+// to the oldest. Iterators built from this list give earlier tables precedence.
 func (p *MemTablePool) GetMemTables() []*MemTable {
 	p.mu.RLock()
 	defer p.mu.RUnlock()
 
 	result := make([]*MemTable, 0, len(p.immutables)+1)
 	result = append(result, p.active)
-	result = append(result, p.immutables...)
+	for i := len(p.immutables) - 1; i >= 0; i-- {
+		result = append(result, p.immutables[i])
+	}
 	return result
 }
 
